@@ -1,4 +1,5 @@
 from cacheprops import CACHE_TB, CACHE_ASSUMPTIONS, ca_component
+from subprops import su_component
 
 import facts
 
@@ -13,7 +14,7 @@ PROP = {
         "Gnmi.Feed.step_ssim", "Gnmi.Feed.reset_sim", "Gnmi.Feed.updateMeta_sim", "Gnmi.Feed.updateMetadata_ssim",
         "Gnmi.Feed.gnmiUpdate_sim", "Gnmi.Feed.dispatch_sim", "Gnmi.Feed.GT.delete", "Gnmi.Feed.GT.set", "Gnmi.Feed.GT.suppress",
         "Gnmi.Feed.valueEqual_trans"],
-    "components": [ca_component("", 2000, 30000)],
+    "components": [ca_component("", 2000, 30000), su_component("c08", 120, 1200)],
     "monitor": "spec", "level": "proof",
     "trusted_base": CACHE_TB + ["the replay monitor (feed events applied by the harness itself to a view, compared with Cache.Query) is part of the harness"],
     "assumptions": CACHE_ASSUMPTIONS + [
